@@ -4,6 +4,7 @@
 open Model
 open Conv
 
+
 let kind_of (spec : Stdlib.String.t) : node_kind =
   let p = Array.of_list (Stdlib.String.split_on_char ':' spec) in
   let b s = s = "1" in
@@ -90,6 +91,12 @@ let handle (line : Stdlib.String.t) : Stdlib.String.t =
         { e_kind = kind_of f.(b); e_line_start = n_of_int (int_of_string f.(b + 1));
           e_actual = coq_string (unhex f.(b + 2)); e_expected = opt_field f.(b + 3) }) in
       hex (ocaml_string (fallback_display rel entries))
+  | "expand" ->
+      (* expand <join_ok> <value uexpr sexp> <pattern sexp>  ->  flat tokens of the whole expansion *)
+      let join_ok = f.(1) = "1" in
+      let value = Irconv.uexpr_of (Irconv.parse_sexp f.(2)) in
+      let p = Irconv.pat_of (Irconv.parse_sexp f.(3)) in
+      Irconv.toks_to_string (expand_top join_ok value.u_toks p)
   | c -> failwith ("unknown command " ^ c)
 
 let () =
